@@ -18,7 +18,7 @@ Theorem C05_canonical_tree_is_wellformed_and_denotes_m :
     wf_wmsg (canon_msg m) /\
     erase_chain eap_of (wm_sk_next (canon_msg m)) (wm_payloads (canon_msg m)) = Some (map norm_payload (m_payloads m)).
 Proof.
-  exact (fun m Hd Hc => conj (canon_msg_wf m Hd)
+  exact (fun m Hd Hc => conj (canon_msg_wf m Hd Hc)
            (erase_canon_chain (m_payloads m) (proj1 (proj2 Hd)) Hc)).
 Qed.
 Print Assumptions C05_canonical_tree_is_wellformed_and_denotes_m.
